@@ -145,6 +145,7 @@ func runHTTPScenario(t *testing.T, sc hScenario) (lines []M, problem string) {
 			method, ur string
 			hdr        string
 			body       []byte
+			skip       bool
 		}
 		arrivals := map[int]*arrival{}
 		srv := &http.Server{Handler: http.HandlerFunc(func(w http.ResponseWriter, r *http.Request) {
@@ -154,10 +155,18 @@ func runHTTPScenario(t *testing.T, sc hScenario) (lines []M, problem string) {
 			a := &arrival{n: n, t: time.Since(t0), method: r.Method, ur: r.URL.Path + "?" + r.URL.RawQuery, hdr: r.Header.Get("X-Orig") + "|" + r.Header.Get("Content-Type")}
 			arrivals[n] = a
 			mu.Unlock()
-			b, _ := io.ReadAll(r.Body)
-			mu.Lock()
-			a.body = b
-			mu.Unlock()
+			early := n <= len(sc.Script) && sc.Script[n-1].Mode == "early"
+			if early {
+				// refuse at once, without reading the upload (an early 429/503); this attempt's body is not judged
+				mu.Lock()
+				a.skip = true
+				mu.Unlock()
+			} else {
+				b, _ := io.ReadAll(r.Body)
+				mu.Lock()
+				a.body = b
+				mu.Unlock()
+			}
 			sr := hResp{Status: 200, Ra: -1, Err: "none", Mode: "buffered"}
 			if n <= len(sc.Script) {
 				sr = sc.Script[n-1]
@@ -228,6 +237,9 @@ func runHTTPScenario(t *testing.T, sc hScenario) (lines []M, problem string) {
 			switch p {
 			case "retry":
 				ps = append(ps, rb.Build())
+			case "retrybo":
+				// a backoff is configured as well: the server's Retry-After (the delay function) still has to win
+				ps = append(ps, failsafehttp.RetryPolicyBuilder().WithMaxRetries(sc.MaxRetries).ReturnLastFailure().WithBackoff(unit/10, unit/2).Build())
 			case "timeout":
 				ps = append(ps, timeout.With[*http.Response](time.Hour))
 			case "hedge":
@@ -314,7 +326,7 @@ func runHTTPScenario(t *testing.T, sc hScenario) (lines []M, problem string) {
 			}
 			lines = append(lines, M{"ev": "Req", "n": n, "t": int64(a.t / unit), "tend": int64(a.tend / unit),
 				"sameMethod": a.method == method, "sameURL": a.ur == "/path/x?q=1", "sameHeaders": a.hdr == "h1|text/x-test",
-				"bodyComplete": bytes.Equal(a.body, data), "bodyLen": len(a.body), "ctxValues": cs["vals"], "ctxDeadline": cs["dl"]})
+				"bodyComplete": a.skip || bytes.Equal(a.body, data), "bodyLen": len(a.body), "ctxValues": cs["vals"], "ctxDeadline": cs["dl"]})
 		}
 		mu.Unlock()
 		add(final)
